@@ -62,6 +62,13 @@ N_SITES = len(ACTIVE_SITES)
 
 IDENT_EX = {}
 IDENT_CANDIDATES = ['TIME', 'BOREHOLE-DEPTH', 'm', 'A1', 'INCREASING', 'STANDARD', 'Tool', 'LOCALLY-DEFINED']
+# plus the first member of every enumeration the package defines (so that every validated attribute gets a valid example)
+from dliswriter.utils import enums as _enums
+for _en in vars(_enums).values():
+    if inspect.isclass(_en) and hasattr(_en, '__members__') and len(_en.__members__):
+        _v = list(_en.__members__.values())[0].value
+        if _v not in IDENT_CANDIDATES:
+            IDENT_CANDIDATES.append(_v)
 
 
 def kind_of(a):
